@@ -1,9 +1,169 @@
 import Lean.Data.Json
-/-! Line-protocol handler for property C10 (model side of the correspondence). -/
+import SpoxModel.Model.Tensor
+import SpoxModel.Model.Attr
+import SpoxModel.Generated.Capture
+/-! Line-protocol handler for C10: run `fromArray` / `toArray` / `construct` / the heap model on the
+    request and report everything (the harness compares with the real code, field by field). -/
 namespace Drv.C10
-open Lean
+open Lean Tensor Attr Capture
 
-/-- One request (a JSON value) in, one response (a JSON value) out. -/
-def handle (_req : Json) : Json := Json.mkObj [("error", "unimplemented")]
+def natList (j : Json) (k : String) : Except String (List Nat) :=
+  match j.getObjVal? k with
+  | .ok v => do let a ← v.getArr?; a.toList.mapM (fun x => x.getNat?)
+  | .error _ => pure []
+
+def intList (j : Json) (k : String) : Except String (List Int) :=
+  match j.getObjVal? k with
+  | .ok v => do let a ← v.getArr?; a.toList.mapM (fun x => x.getInt?)
+  | .error _ => pure []
+
+def natListList (j : Json) (k : String) : Except String (List (List Nat)) :=
+  match j.getObjVal? k with
+  | .ok v => do
+    let a ← v.getArr?
+    a.toList.mapM (fun x => do let b ← x.getArr?; b.toList.mapM (fun y => y.getNat?))
+  | .error _ => pure []
+
+def bytesOf (l : List Nat) : ByteArray := ⟨(l.map (fun n => UInt8.ofNat n)).toArray⟩
+def charsOf (l : List Nat) : List Char := l.map Char.ofNat
+
+def parseArr (j : Json) : Except String Arr := do
+  let dn ← j.getObjValAs? String "dtype"
+  let some d := DType.ofName? dn | throw s!"bad dtype {dn}"
+  let shape ← natList j "shape"
+  let words ← natList j "words"
+  let strs ← natListList j "strs"
+  return ⟨d, shape, words, strs.map charsOf⟩
+
+def arrJson (a : Arr) : Json := Json.mkObj [
+  ("dtype", a.dtype.name), ("shape", toJson a.shape), ("words", toJson a.words),
+  ("strs", toJson (a.strs.map fun cs => cs.map Char.toNat))]
+
+def protoJson (t : TProto) : Json := Json.mkObj [
+  ("data_type", toJson t.dataType), ("dims", toJson t.dims), ("name", t.name),
+  ("int32_data", toJson t.int32Data), ("int64_data", toJson t.int64Data),
+  ("uint64_data", toJson t.uint64Data), ("float_data", toJson t.floatData),
+  ("double_data", toJson t.doubleData),
+  ("string_data", toJson (t.stringData.map fun b => b.toList.map UInt8.toNat))]
+
+def parseProto (j : Json) : Except String TProto := do
+  let dt ← j.getObjValAs? Nat "data_type"
+  let dims ← natList j "dims"
+  let i32 ← intList j "int32_data"
+  let i64 ← intList j "int64_data"
+  let u64 ← natList j "uint64_data"
+  let f ← natList j "float_data"
+  let d ← natList j "double_data"
+  let s ← natListList j "string_data"
+  return { dataType := dt, dims, int32Data := i32, int64Data := i64, uint64Data := u64,
+           floatData := f, doubleData := d, stringData := s.map bytesOf }
+
+def optJson {α} (f : α → Json) : Option α → Json
+  | none => Json.null
+  | some a => f a
+
+def parseAtom (j : Json) : Except String Atom := do
+  let k ← j.getObjValAs? String "k"
+  match k with
+  | "none" => return .none
+  | "bool" => return .bool (← j.getObjValAs? Bool "v")
+  | "int" =>
+    let n ← j.getObjValAs? Int "v"
+    let f := match j.getObjValAs? Nat "f32" with | .ok p => some p | .error _ => none
+    return .int n f
+  | "float" => return .float (← j.getObjValAs? Nat "bits") (← j.getObjValAs? Nat "f32")
+  | "str" => return .str (charsOf (← natList j "v"))
+  | "bytes" => return .bytes (bytesOf (← natList j "v"))
+  | "ndarray" => return .ndarray (← parseArr j)
+  | "badarray" => return .badarray
+  | "typ" => return .typ
+  | "npdtype" =>
+    match j.getObjValAs? String "v" with
+    | .ok s => match DType.ofName? s with
+      | some d => return .npdtype (some d)
+      | none => throw s!"bad dtype {s}"
+    | .error _ => return .npdtype none
+  | "graph" => return .graph
+  | "sequence" => return .sequence
+  | "obj" => return .obj
+  | _ => throw s!"bad atom kind {k}"
+
+def parseVal (j : Json) : Except String PyVal := do
+  let k ← j.getObjValAs? String "k"
+  if k == "seq" then
+    let items ← j.getObjValAs? (Array Json) "items"
+    return .seq (← items.toList.mapM parseAtom)
+  else return .atom (← parseAtom j)
+
+def aprotoJson (p : AProto) : Json := Json.mkObj [
+  ("name", p.name), ("type", toJson p.type), ("f", toJson p.f), ("i", toJson p.i),
+  ("s", toJson (p.s.toList.map UInt8.toNat)), ("t", optJson protoJson p.t),
+  ("tp", toJson p.hasTypeProto), ("floats", toJson p.floats), ("ints", toJson p.ints),
+  ("strings", toJson (p.strings.map fun b => b.toList.map UInt8.toNat)),
+  ("tensors", Json.arr (p.tensors.map protoJson).toArray)]
+
+def storedLen : PyVal → Json
+  | .atom _ => Json.null
+  | .seq items => toJson items.length
+
+def parseMode : String → Except String Mode
+  | "alias" => pure .alias | "copy" => pure .copy | "freeze" => pure .freeze | "deep" => pure .deep
+  | "opaque" => pure .opaque | s => throw s!"bad mode {s}"
+
+def handleE (req : Json) : Except String Json := do
+  let op ← req.getObjValAs? String "op"
+  let q := match req.getObjValAs? Bool "q" with | .ok b => b | .error _ => true
+  match op with
+  | "enc" =>
+    let a ← parseArr req
+    let name := match req.getObjValAs? String "name" with | .ok s => s | .error _ => ""
+    match fromArray q a name with
+    | none => return Json.mkObj [("proto", Json.null), ("back", Json.null)]
+    | some t =>
+      return Json.mkObj [("proto", protoJson t), ("back", optJson arrJson (toArray q t)),
+        ("type", optJson (fun (p : DType × List Nat) => Json.mkObj [("dtype", p.1.name), ("shape", toJson p.2)])
+          (typeOfProto t))]
+  | "dec" =>
+    let t ← parseProto (← req.getObjVal? "proto")
+    return Json.mkObj [("back", optJson arrJson (toArray q t))]
+  | "attr" =>
+    let cn ← req.getObjValAs? String "cls"
+    let some c := Cls.ofName? cn | throw s!"bad class {cn}"
+    let name ← req.getObjValAs? String "name"
+    let v ← parseVal (← req.getObjVal? "val")
+    match construct q c name v with
+    | .ok (sv, p) => return Json.mkObj [("ok", aprotoJson p), ("stored_len", storedLen sv),
+        ("in_domain", toJson (inDomain c v)), ("right_kind", toJson (rightKind c v))]
+    | .error e => return Json.mkObj [("err", e.name), ("in_domain", toJson (inDomain c v)),
+        ("right_kind", toJson (rightKind c v))]
+  | "capture" =>
+    let mode ← parseMode (← req.getObjValAs? String "mode")
+    let kind ← req.getObjValAs? String "kind"
+    let flat ← natListList req "flat"
+    let nest ← natListList req "nest"
+    let l ← req.getObjValAs? Nat "arg"
+    let h : Heap := ⟨fun k => flat.getD k [], fun k => nest.getD k []⟩
+    let a : Arg := if kind == "nest" then .nest l else if kind == "flat" then .flat l else .imm l
+    let mutsJ ← req.getObjValAs? (Array Json) "muts"
+    let muts ← mutsJ.toList.mapM (fun m => do
+      let v ← natList m "v"
+      match m.getObjValAs? Nat "flat" with
+      | .ok k => pure (Mut.setFlat k v)
+      | .error _ => do let k ← m.getObjValAs? Nat "nest"; pure (Mut.setNest k v))
+    let st := capture mode h a
+    return Json.mkObj [("at_call", toJson (observe h st)), ("after", toJson (observe (mutate h muts) st)),
+      ("safe", toJson (safe mode a.kind))]
+  | "tables" =>
+    return Json.mkObj [
+      ("capture", Json.arr (Generated.CaptureTable.table.map fun e =>
+        Json.mkObj [("site", e.site), ("ok", toJson e.ok)]).toArray),
+      ("kinds", Json.arr (Cls.all.map fun c => Json.mkObj [("cls", c.name),
+        ("kind", toJson (Generated.AttrKinds.kindOf c)), ("spec", toJson (specKind c))]).toArray)]
+  | _ => throw s!"bad op {op}"
+
+def handle (req : Json) : Json :=
+  match handleE req with
+  | .ok j => j
+  | .error e => Json.mkObj [("error", e)]
 
 end Drv.C10
